@@ -326,7 +326,7 @@ func runC03(c *Ctx) {
 	p := c.P
 	c.Rule("C03-R1", "IsIdentical methods read every content field on both operands", 17)
 	c.Rule("C03-R2", "state decision table of GitBranchFinder.Find equals the reference on all 32 valuations", 32)
-	c.Rule("C03-R3", "matchedEntry literals set hasBefore or hasAfter", 2)
+	c.Rule("C03-R3", "matchedEntry literals set hasBefore or hasAfter; name pairing requires same kind", 6)
 	c.Rule("C03-R4", "state vocabulary tables (stateMatches, CIStates, defaultMatchStates, Match.validate)", 14)
 	c.Rule("C03-R5", "merge into the full list; who may write Entry.State", 8)
 
@@ -512,6 +512,7 @@ func runC03(c *Ctx) {
 			c.Bad("C03-R3", "matchEntries:matchedEntry literals", me.Decl.Pos(), "no matchedEntry literal found")
 		}
 	}
+	c03Pairing(c, "C03-R3")
 	// literals elsewhere
 	for _, fi := range p.AllFuncs() {
 		if fi.Name == "internal/discovery.matchEntries" || p.IsTestFile(fi.Decl.Pos()) || fi.Decl.Body == nil {
@@ -953,5 +954,46 @@ func c03StateTables(c *Ctx, rule string) {
 		}
 		words := sortedKeys(got)
 		c.Check(strings.Join(words, ",") == "added,any,modified,removed,renamed,unmodified", rule, "Match.validate:state words", mv.Decl.Pos(), "documented vocabulary", "validate accepts state words ["+strings.Join(words, ",")+"]")
+	}
+}
+
+
+// c03Pairing: before/after pairing by name requires the same rule kind and
+// an error-free entry (shared with C20: a kind-blind pairing turns a removal
+// into a modification and rule/dependency never runs).
+func c03Pairing(c *Ctx, rule string) {
+	p := c.P
+	if frn := c.MustFunc(rule, "internal/discovery.findRulesByName"); frn != nil {
+		finfo := frn.Pkg.TypesInfo
+		fl := p.NewFlow(frn)
+		sig := frn.Obj.Type().(*types.Signature)
+		matchRes := sig.Results().At(sig.Results().Len() - 1)
+		apps := fl.Find(func(n ast.Node) bool {
+			as, ok := n.(*ast.AssignStmt)
+			return ok && len(as.Lhs) == 1 && objOf(finfo, as.Lhs[0]) == matchRes
+		})
+		c.Check(len(apps) == 1, rule, "findRulesByName:one match collector", frn.Decl.Pos(), "one append", itoa(len(apps))+" appends to the match list")
+		for _, a := range apps {
+			eqCall := func(method string) func(Atom) bool {
+				return func(at Atom) bool {
+					be, ok := ast.Unparen(at.E).(*ast.BinaryExpr)
+					if !ok || at.Tag != nil || !at.Truth || be.Op != token.EQL {
+						return false
+					}
+					for _, side := range []ast.Expr{be.X, be.Y} {
+						if call, ok := side.(*ast.CallExpr); ok && isCallTo(finfo, call, "internal/parser.Rule."+method) {
+							return true
+						}
+					}
+					return false
+				}
+			}
+			c.Check(fl.Dominated(a.Site, nil, eqCall("Name")), rule, "findRulesByName:match requires equal Name()", a.Inner.Pos(), "guarded", "before/after pairing no longer requires the same rule name")
+			c.Check(fl.Dominated(a.Site, nil, eqCall("Type")), rule, "findRulesByName:match requires equal Type()", a.Inner.Pos(), "guarded", "before/after pairing is kind-blind: a removed recording rule is paired with a new alert of the same name and classified modified instead of removed")
+			c.Check(fl.Dominated(a.Site, nil, func(at Atom) bool {
+				x, isNil, ok := nilAtom(finfo, at)
+				return ok && isNil && fieldSel(finfo, x, "internal/discovery.Entry", "PathError")
+			}), rule, "findRulesByName:match requires PathError == nil", a.Inner.Pos(), "guarded", "entries with path errors can be paired by name")
+		}
 	}
 }
